@@ -3,6 +3,8 @@ package model
 import (
 	"fmt"
 	"strings"
+	"unicode"
+	"unicode/utf8"
 
 	"lssim/world"
 )
@@ -62,8 +64,8 @@ func isRefText(s string) bool {
 	if s == "" {
 		return false
 	}
-	c := s[0]
-	return c == '_' || c >= 'a' && c <= 'z' || c >= 'A' && c <= 'Z'
+	c, _ := utf8.DecodeRuneInString(s)
+	return c == '_' || c >= 'a' && c <= 'z' || c >= 'A' && c <= 'Z' || (c >= 0x80 && unicode.IsLetter(c))
 }
 
 func typeShape(t string) string {
